@@ -145,11 +145,11 @@ Proof.
   unfold wf_field. intros H Hg. rewrite Hg in H. unfold default_of.
   destruct (fhint f) as [t|t|t|k v].
   - destruct t; reflexivity.
-  - exfalso. repeat (apply andb_prop in H; destruct H as [H ?]).
+  - exfalso. repeat match goal with H0 : _ && _ = true |- _ => apply andb_prop in H0; destruct H0 end.
     match goal with H0 : negb (is_some' (Some _)) = true |- _ => discriminate H0 end.
-  - exfalso. repeat (apply andb_prop in H; destruct H as [H ?]).
+  - exfalso. repeat match goal with H0 : _ && _ = true |- _ => apply andb_prop in H0; destruct H0 end.
     match goal with H0 : negb (is_some' (Some _)) = true |- _ => discriminate H0 end.
-  - exfalso. repeat (apply andb_prop in H; destruct H as [H ?]).
+  - exfalso. repeat match goal with H0 : _ && _ = true |- _ => apply andb_prop in H0; destruct H0 end.
     match goal with H0 : negb (is_some' (Some _)) = true |- _ => discriminate H0 end.
 Qed.
 
